@@ -70,6 +70,7 @@ def check(seed, pid, tier):
     if r.returncode == 2: print(r.stderr[-1500:])
     reset()
     sh(["git", "-C", VERIF, "checkout", "--", "evidence"])
+    sh(["git", "-C", VERIF, "clean", "-fq", "replays"])  # replay files written against the scratch tree do not belong to /repo
     return r.returncode
 if __name__ == "__main__":
     a = sys.argv[1:]
